@@ -1,5 +1,7 @@
 #!/usr/bin/env python3
-"""tools/seedcheck.py <prop> <worktree> <k> [--demo 'shell command run inside the worktree; {wt} expands']
+"""tools/seedcheck.py <prop> <worktree> <k> [--demo 'shell command run inside the worktree; {wt} expands'] [--iso]
+--iso: run the check in private copies of /verif and /repo under /root/scratch/iso (VERIF_REPO), so that several
+evaluations / long runs can go on at once; without it the change is applied to /repo itself.
 Confirms a seeded change independently (build, baseline tests, demonstration fails with / passes without), then applies
 it to /repo, runs ./check <prop>, restores /repo by path, and files the result under /verif/seeded/<prop>-<k>/."""
 import json, os, shutil, subprocess, sys, time
@@ -40,23 +42,37 @@ def main():
     tests_ok = rc_b == 0 and "FAIL" not in out_t and "ok" in out_t
     # 2. against the checks
     files = [l.split()[-1] for l in subprocess.run("git apply --numstat %s" % patch, shell=True, cwd="/repo", stdout=subprocess.PIPE, text=True).stdout.splitlines()]
-    rc, out = sh("git apply %s" % patch, cwd="/repo")
+    iso = "--iso" in sys.argv
+    if iso:
+        base = "/root/scratch/iso/%s-%s" % (prop, k)
+        shutil.rmtree(base, ignore_errors=True)
+        os.makedirs(base)
+        sh("cp -a /repo %s/repo && rm -f %s/repo/.git && cp -a /repo/.git %s/repo/.git 2>/dev/null; rsync -a --exclude .work --exclude replays /verif/ %s/verif/" % (base, base, base, base))
+        rrepo, rverif = base + "/repo", base + "/verif"
+        sh("git checkout -- .", cwd=rrepo)          # the copy starts from HEAD, whatever /repo's working tree holds right now
+    else:
+        rrepo, rverif = "/repo", V
+    rc, out = sh("git apply %s" % patch, cwd=rrepo)
     assert rc == 0, out
     try:
         t0 = time.time()
-        rc_c, out_c = sh("./check %s" % prop, cwd=V, timeout=3000)
+        cmd = "./check %s" % prop if not iso else "VERIF_REPO=%s ./check %s" % (rrepo, prop)
+        rc_c, out_c = sh(cmd, cwd=rverif, timeout=3000)
         dt = time.time() - t0
     finally:
-        sh("git checkout -- %s" % " ".join(files), cwd="/repo")
+        if not iso:
+            sh("git checkout -- %s" % " ".join(files), cwd="/repo")
     viol = [l for l in out_c.splitlines() if l.startswith("VIOLATION")]
     replay = None
     if viol:
         rp = viol[0].split("replay=")[1].split()[0]
         try:
-            replay = json.load(open(os.path.join(V, rp)))
+            replay = json.load(open(os.path.join(rverif, rp)))
         except Exception:
             pass
-    sh("rm -f replays/%s-*" % prop, cwd=V)
+    sh("rm -f replays/%s-*" % prop, cwd=rverif)
+    if iso:
+        shutil.rmtree(base, ignore_errors=True)
     ran.append("./check %s on /repo with the change applied: exit %d, %d VIOLATION line(s), %.0f s" % (prop, rc_c, len(viol), dt))
     dst = os.path.join(V, "seeded", "%s-%s" % (prop, k))
     shutil.rmtree(dst, ignore_errors=True)
